@@ -57,6 +57,7 @@ def check(ctx):
     repo = ctx.repo
     P = repo.cls(PARAM, "Parameter")
     C = repo.cls(PARAM, "CompositeParameter")
+    ctx.rule("R16.10", "clearing the cache of a composite clears both operands whenever they are parameters (all four operand-kind combinations)", 4)
     ctx.rule("R16.9", "pickling / copying a parameter leaves the parameter itself unchanged (no write to self or to its live __dict__)", 1)
     ctx.rule("R16.1", "each of the five operators has a forward dunder (self, other, operator.X) and a reflected dunder "
                       "(other, self, operator.X); the table VALID_OPERATORS has exactly these", 11)
@@ -217,6 +218,7 @@ def check(ctx):
     ctx.ob("R16.8", "__call__ hashes and evaluates the same (x, y, z, t)", ok, detail={"hash": call_args, "evaluate": ev_args}, where=fc.fq,
            construct="__call__ cache protocol", loc=loc(fc, fc.node), message=f"hash args {call_args}, evaluate args {ev_args}",
            consequence="the value stored under a key was computed for other arguments")
+    clear_reaches_operands(ctx, C)
     from ..effects import serialisers_pure
     serialisers_pure(ctx, "R16.9", "after a composite parameter has been pickled once (tdgl.solve pickles the applied vector potential into the "
                                    "output file) its operands are byte strings: evaluating it again, comparing it or nesting it further fails "
@@ -317,6 +319,13 @@ def operand_rules(ctx, P, C):
                         facts += isinstance_facts(par.test, True)
                     elif fld == "orelse":
                         facts += isinstance_facts(par.test, False)
+                # early exits: `if <test>: continue / break / return / raise` before this statement establishes `not <test>`
+                if isinstance(st, ast.stmt) and fld in ("body", "orelse", "finalbody") and isinstance(getattr(par, fld, None), list):
+                    sibs = getattr(par, fld)
+                    for prev in sibs[:sibs.index(st)] if st in sibs else []:
+                        if isinstance(prev, ast.If) and not prev.orelse and prev.body and \
+                                isinstance(prev.body[-1], (ast.Continue, ast.Break, ast.Return, ast.Raise)):
+                            facts += isinstance_facts(prev.test, False)
                 st = par
             pos = {c for (o, c, pol) in facts if o == optxt and pol}
             neg = {c for (o, c, pol) in facts if o == optxt and not pol}
@@ -355,3 +364,43 @@ def operand_rules(ctx, P, C):
                detail={"left": sorted(l), "right": sorted(r)}, where=f"{C.module.name}:{q}", construct=f"{q} symmetry",
                message=f"{q} treats the operands differently: left {sorted(l)}, right {sorted(r)}",
                consequence="`2*P` and `P*2` behave differently (e.g. only one side's cache is cleared)")
+
+
+# ---------------------------------------------------------------------------
+# R16.10 _clear_cache reaches every parameter operand
+# ---------------------------------------------------------------------------
+
+def clear_reaches_operands(ctx, C):
+    """Interpret CompositeParameter._clear_cache for the four combinations (parameter | number) x (parameter | number)."""
+    from ..alg import AtomTable
+    from ..interp import Interp, Obj, PyFunc, Unsupported
+    repo = ctx.repo
+    f = C.methods.get("_clear_cache")
+    if f is None:
+        raise AnalysisError("CompositeParameter._clear_cache no longer exists")
+    P = repo.cls("tdgl.parameter", "Parameter")
+    for lk in ("parameter", "number"):
+        for rk in ("parameter", "number"):
+            T = AtomTable()
+            ip = Interp(repo, T)
+            cleared = []
+
+            def mk(kind, side):
+                if kind == "number":
+                    return 2
+                return Obj(P, {"_clear_cache": PyFunc(lambda _s=side: cleared.append(_s))}, label=side)
+            own = Obj(None, {"clear": PyFunc(lambda: cleared.append("own"))}, label="cache")
+            me = Obj(C, {"left": mk(lk, "left"), "right": mk(rk, "right"), "_cache": own}, label="composite")
+            try:
+                ip.call_function(f, [me], {})
+                err = None
+            except Unsupported as e:
+                err = str(e)
+            want = sorted(["own"] + [s_ for s_, k_ in (("left", lk), ("right", rk)) if k_ == "parameter"])
+            ok = err is None and sorted(cleared) == want
+            ctx.ob("R16.10", f"left is a {lk}, right is a {rk}: operands cleared == {want}", ok,
+                   detail={"cleared": sorted(cleared), "error": err}, where=f.fq, construct=f"_clear_cache with left {lk}, right {rk}",
+                   loc=loc(f, f.node), message=f"with a {lk} on the left and a {rk} on the right, _clear_cache() clears {sorted(cleared)} "
+                                               f"instead of {want}" + (f" ({err})" if err else ""),
+                   consequence="memoised values of a time-dependent operand survive the solver's cache clearing: a second solve with the same "
+                               "composite (e.g. (1 - ramp) * field) evaluates stale values instead of the pointwise combination of its operands")
